@@ -77,6 +77,21 @@ def texts_for(entry, kind):
             except UnicodeError:
                 pass
 
+    if len(entry['lf']) > 1:
+        # the same traps in the *first* line (where the line endings are
+        # guessed from when they are not declared)
+        for pair in ('\u0a41\u2000', '\u4100\u0a20', '\u0a0d\u0a00',
+                     '\u0d00\u0a00'):
+            try:
+                if pair.encode(entry['canon']).decode(entry['canon']) == pair:
+                    extra.append('x' + pair + 'y' + nl + 'second' + nl)
+            except UnicodeError:
+                pass
+
+    if kind == 'dos':
+        # Git's marker line, LF-terminated, at the end of a CRLF diff
+        extra.append('-a' + nl + '\\ No newline at end of file\n')
+
     # an empty first line, and a lone CR as the very last character
     extra.append(nl + 'x' + nl + 'y\r')
 
